@@ -44,11 +44,17 @@ def handle (c : Json) : Json :=
   let cs : List (Callee × Bool) := invs.mapIdx (fun i j => (calleeOf i (jF j "callee"), jB (jF j "big")))
   let sc : List Sched := invs.map (fun j => { dur := jN (jF j "dur"), pred := jOptN (jF j "pred") })
   let g := schedule prog sc (64 * (invs.length + 1)) (sc.map (·.dur)) (G.init cs)
+  -- children that linger after their send: where does the system stand while they have not exited?
+  let hold := (List.range invs.length).filter (fun i => match invs[i]? with | some j => jTag (jF j "callee") == "linger" | none => false)
+  let gH := scheduleH hold prog sc (64 * (invs.length + 1)) (sc.map (·.dur)) (G.init cs)
   let model := mkObj [
     ("out", jArr (g.invs.map locOut)),
     ("terminates", jBool (g.invs.all (fun l => l.st.final))),
     ("released", jBool (allReleased g)),
     ("path", jArr (g.invs.map (fun l => jStr (pathTag l)))),
+    -- invocations inside the synchronous `join` while their child lingers, and is the event loop frozen then
+    ("stall", jArr ((blockedBehind prog hold gH).map jNat)),
+    ("loopFrozenWhileLingering", jBool (!hold.isEmpty && frozen prog gH)),
     ("stuck", jBool ((gsucc prog g).isEmpty && !g.invs.all (fun l => l.st.final)))]
   let spec := mkObj [
     ("allowed", jArr (cs.map (fun c => jArr ((Spec.allowed c.1).map obsJ)))),
